@@ -326,6 +326,56 @@ func c20ConcScenarios() []*explore.Scenario {
 			readers.Wait()
 			d.finish(6)
 		}},
+		// registry dimension "two attempts registered AT ONCE whose metadata share the obfs key and
+		// differ in the nonce" (x and y: the client picks the metadata, so this is legal): a punch
+		// packet of either attempt unmasks to the magic under the other's key too and must still be
+		// tried against (and diverted by) its own attempt, whichever of the two the registry scan
+		// meets first. In this build the scan order is fixed (map ranges are sorted by id, x before
+		// y), so packets of BOTH attempts are sent while both are registered: the packet of the
+		// attempt scanned second is the one that has to get past the other one. One registrar, so
+		// the pair is registered in every schedule; after remove(x) the packets of x surface and
+		// those of y are still diverted. (Added after the independently seeded change C20-10: the
+		// scan stopped at the first attempt whose key unmasked the magic, nonce mismatch included.)
+		{Name: "shared-key-pair-registered-at-once(x,y:same-key-other-nonce)", Quick: q, Thorough: th, Body: func(e *vsched.Exec) {
+			d := c20NewDrv(e, 1)
+			q0 := d.mk("", 0, 0)
+			px1, py1, q1, py2, px2 := d.mk("x", 0x01, 0), d.mk("y", 0x02, 3), d.mk("", 0, 1), d.mk("y", 0x01, 1024), d.mk("x", 0x02, 1)
+			px3, py3, q2 := d.mk("x", 0x01, 2), d.mk("y", 0x01, 0), d.mk("", 0, 2)
+			d.inject(q0)
+			done := make(chan struct{})
+			var readers, others, cons vsync.WaitGroup
+			readers.Add(1)
+			vsched.Go(func() { defer readers.Done(); d.reader() })
+			others.Add(1)
+			vsched.Go(func() {
+				defer others.Done()
+				d.add(1, "x")
+				d.add(1, "y")
+				for _, pk := range []*c20CPkt{px1, py1, q1, py2, px2} {
+					d.inject(pk)
+				}
+				e.WaitIdle() // all five handled with both attempts registered
+				d.remove(1, "x")
+				d.inject(px3)
+				d.inject(py3)
+				d.inject(q2)
+			})
+			cons.Add(1)
+			vsched.Go(func() { defer cons.Done(); d.consumer(done) })
+			others.Wait()
+			e.WaitIdle()
+			_ = d.pc.Close()
+			readers.Wait()
+			vchan.Close(done)
+			cons.Wait()
+			d.finish(9)
+			// directed form of the linearizability verdict for the window in which both were registered
+			for _, pk := range d.surfaced {
+				if pk == px1 || pk == py1 || pk == py2 || pk == px2 {
+					e.Fail("%s reached QUIC while attempts x and y (same obfs key, other nonce) were both registered", pk.name)
+				}
+			}
+		}},
 		// Close racing with the reader and the registrar: the reader must come back with
 		// net.ErrClosed wherever Close lands, a later ReadFrom must fail at once
 		{Name: "close-race", Quick: q, Thorough: th, Body: func(e *vsched.Exec) {
